@@ -19,7 +19,8 @@
 //	                                             Session id and the last WWW-Authenticate challenge
 //	item, err := c.ReadItem()                    strict reader: splits the server→client byte stream into complete
 //	                                             responses and '$' frames; Item{Response|Frame}; anything else is a
-//	                                             *FramingError. On ws every message must be exactly one item.
+//	                                             *FramingError (Truncated=true when the connection merely ended inside
+//	                                             an item). On ws every message must be exactly one item.
 //	c.Captured()                                 every byte received so far (read continuously in the background,
 //	                                             also while nobody calls ReadItem)
 //	c.WriteFrame(channel, payload)               '$' ch len16 payload
@@ -63,9 +64,10 @@ var ErrTimeout = errors.New("rtspc: timeout waiting for the server")
 // FramingError reports server output that is neither a complete RTSP response
 // nor a complete interleaved frame.
 type FramingError struct {
-	Offset int    // offset into Captured() where the offending item starts
-	What   string // what is wrong
-	Near   []byte // up to 64 bytes from Offset
+	Offset    int    // offset into Captured() where the offending item starts
+	What      string // what is wrong
+	Near      []byte // up to 64 bytes from Offset
+	Truncated bool   // the bytes are a proper prefix of an item and the connection ended there
 }
 
 func (e *FramingError) Error() string {
@@ -275,6 +277,7 @@ type Client struct {
 	mu      sync.Mutex
 	cap     []byte
 	msgEnds []int // ws: offsets in cap where a message ends
+	msgSeen int   // ws: messages fully consumed by the reader
 	rerr    error
 	notify  chan struct{}
 	pos     int
@@ -424,19 +427,17 @@ func (c *Client) try() (it Item, done bool, err error) {
 	defer c.mu.Unlock()
 	rest := c.cap[c.pos:]
 	if c.ws != nil {
-		// the message that starts at pos
-		end := -1
-		for _, e := range c.msgEnds {
-			if e > c.pos {
-				end = e
-				break
-			}
-		}
-		if end < 0 {
+		// the reader is always at a message boundary: message msgSeen starts at pos
+		if c.msgSeen >= len(c.msgEnds) {
 			if c.rerr != nil {
 				return it, true, c.rerr
 			}
 			return it, false, nil
+		}
+		end := c.msgEnds[c.msgSeen]
+		if end == c.pos {
+			c.msgSeen++ // skip it, so that the caller may go on reading
+			return it, true, c.framing(c.pos, "empty ws message")
 		}
 		msg := c.cap[c.pos:end]
 		it, n, perr := ParseItem(msg)
@@ -451,6 +452,7 @@ func (c *Client) try() (it Item, done bool, err error) {
 		}
 		it.Offset = c.pos
 		c.pos = end
+		c.msgSeen++
 		return it, true, nil
 	}
 	it, n, perr := ParseItem(rest)
@@ -466,7 +468,9 @@ func (c *Client) try() (it Item, done bool, err error) {
 		if len(rest) == 0 {
 			return it, true, c.rerr
 		}
-		return it, true, c.framing(c.pos, fmt.Sprintf("connection ended (%v) inside an item, %d bytes pending", c.rerr, len(rest)))
+		fe := c.framing(c.pos, fmt.Sprintf("connection ended (%v) inside an item, %d bytes pending", c.rerr, len(rest)))
+		fe.Truncated = true
+		return it, true, fe
 	}
 	return it, false, nil
 }
